@@ -7,12 +7,13 @@ from .. import core, values
 
 ID = 'C18'
 LEVEL = 'exploration'
-RULE = ('case = history over the global default configuration: set_default_config(**subset of {width, ribbon_width, '
+RULE = ('(any step may run in a helper thread that is started and joined at once: the defaults are process-wide) ' +
+        'case = history over the global default configuration: set_default_config(**subset of {width, ribbon_width, '
         'depth, max_seq_len, sort_dict_keys}) / get_default_config() / print(value, entry point, explicitly passed subset '
         'of {indent, width, ribbon_width, depth, max_seq_len, sort_dict_keys}, end string) with entry point in {pformat, '
         'pprint to a StringIO, pprint to a redirected sys.stdout, cpprint with colour off, cpprint with colour on (SGR '
         'stripped), a PrettyPrinter object constructed earlier in the history, pretty_repr of a registered type, PrettyPrinter(**explicit).pformat, PrettyPrinter(**explicit).pprint, '
-        'pformat / pprint with indent, width, depth passed positionally, pretty_repr as the very first use of a fresh class whose '
+        'pformat / pprint with indent, width, depth passed positionally, pretty_repr of an instance of a subclass that only inherits the printer, pretty_repr as the very first use of a fresh class (or of a subclass of it) whose '
         'printer is registered by name}. '
         'Exhaustive: every single setting explicit-vs-default x every entry point after each single-setting '
         'set_default_config; random: Hypothesis histories of up to 10 ops. Model: a dict mirrors the defaults; reference '
@@ -34,7 +35,7 @@ DOMAIN = {
 }
 DEFAULTABLE = ['width', 'ribbon_width', 'depth', 'max_seq_len', 'sort_dict_keys']
 ENTRIES = ['pformat', 'pprint_stream', 'pprint_stdout', 'cpprint_off', 'cpprint_on', 'pretty_repr', 'PP.pformat', 'PP.pprint',
-           'pformat_positional', 'pprint_positional', 'pretty_repr_byname']
+           'pformat_positional', 'pprint_positional', 'pretty_repr_byname', 'pretty_repr_sub', 'pretty_repr_byname_sub']
 VALUES = [
     ['dict', [[['str', 'b'], ['list', [['int', 1], ['int', 2], ['int', 3]]]], [['str', 'a'], ['tuple', [['str', 'x y'], ['none']]]], [['str', 'c'], ['int', 0]]]],
     ['list', [['list', [['list', [['int', 1], ['str', 'deep']]], ['int', 2]]], ['dict', [[['int', 2], ['int', 1]], [['int', 1], ['int', 2]]]], ['str', 'lorem ipsum dolor sit amet']]],
@@ -63,13 +64,19 @@ def _types():
         def _p(value, ctx):
             return pretty_call(ctx, CfgBox, value.v)
         _setup['cls'] = CfgBox
+
+        class CfgSub(CfgBox):
+            """inherits both __repr__ = pretty_repr and the registered printer"""
+        CfgSub.__module__ = 'ppv_cfg'
+        CfgSub.__qualname__ = 'CfgSub'
+        _setup['sub'] = CfgSub
     return _setup['cls']
 
 
 _byname_counter = [0]
 
 
-def _fresh_byname_box(v):
+def _fresh_byname_box(v, subclass=False):
     from prettyprinter import register_pretty, pretty_call, pretty_repr
     _byname_counter[0] += 1
     name = 'ByName%d' % _byname_counter[0]
@@ -77,6 +84,12 @@ def _fresh_byname_box(v):
     cls.__module__ = 'ppv_cfg_byname'
     cls.__qualname__ = 'ByNameBox'          # printed name must not depend on the counter
     key = 'ppv_cfg_byname.ByNameBox'
+    if subclass:
+        # the instance is of a subclass that only inherits the (by-name) printer and the __repr__
+        base = cls
+        cls = type(name + 'Sub', (base,), {})
+        cls.__module__ = 'ppv_cfg_byname'
+        cls.__qualname__ = 'ByNameSub'
 
     @register_pretty(key)
     def _p(value, ctx):
@@ -95,6 +108,12 @@ def enumerate_cases(tier):
                             explicit[explicit_key] = DOMAIN[explicit_key][1]
                         yield {'ops': [['set', {key: newv}], ['get'], ['print', entry, vi, explicit, '\n'],
                                        ['print', 'pformat', vi, {}, '']]}
+                        if explicit_key is None or explicit_key == 'width':
+                            # the defaults are process-wide: set in one thread, read and used in another (helper threads
+                            # are started and joined at once, so the calls still run one after another)
+                            for threaded in ([0], [1, 2], [0, 3]):
+                                yield {'ops': [['set', {key: newv}], ['get'], ['print', entry, vi, explicit, '\n'],
+                                               ['print', 'pformat', vi, {}, '']], 'threaded': threaded}
 
 
 def fixed_cases():
@@ -119,7 +138,8 @@ def strategy(tier):
         st.tuples(st.sampled_from(ENTRIES), st.integers(0, len(VALUES) - 1), subset(list(DOMAIN)),
                   st.sampled_from(['\n', ''])).map(lambda p: ['print', p[0], p[1], p[2], p[3]]),
     )
-    return st.fixed_dictionaries({'ops': st.lists(op, min_size=1, max_size=10)})
+    return st.fixed_dictionaries({'ops': st.lists(op, min_size=1, max_size=10),
+                                  'threaded': st.one_of(st.just([]), st.lists(st.integers(0, 9), max_size=4, unique=True).map(sorted))})
 
 
 def run_entry(entry, value, explicit, end):
@@ -185,89 +205,124 @@ def oracle(case):
     changed = False
     stored_pp = None
     labels = set()
-    try:
-        for op in case['ops']:
-            if op[0] == 'set':
-                before = dict(model)
+    def step(op):
+        nonlocal nontrivial, changed, stored_pp
+        if op[0] == 'set':
+            before = dict(model)
+            try:
+                ret = pp.set_default_config(**op[1])
+            except Exception as e:
+                return core.viol('set_default_config-raised', repr(e))
+            model.update(op[1])
+            if model != before:
+                changed = True
+            if dict(ret) != model:
+                return core.viol('set_default_config-return', 'returned %r, model %r' % (dict(ret), model))
+            if dict(pp.get_default_config()) != model:
+                return core.viol('defaults-differ', 'after %r: %r, model %r' % (op, dict(pp.get_default_config()), model))
+        elif op[0] == 'mkpp':
+            # a printer object constructed now and used later: its explicit settings stick, everything else
+            # follows the defaults in force when it is USED
+            stored_pp = (pp.PrettyPrinter(**op[1]), dict(op[1]))
+        elif op[0] == 'usepp':
+            if stored_pp is None:
+                return None
+            obj, explicit = stored_pp
+            value = values.build(VALUES[op[1]])
+            effective = dict(model)
+            effective.update(explicit)
+            try:
+                ref = pp.pformat(value, **effective)
+                got = obj.pformat(value)
+            except Exception as e:
+                return core.viol('entry-point-raised', 'stored PrettyPrinter(%r) raised %r' % (explicit, e))
+            labels.add('stored-PrettyPrinter')
+            if got != ref:
+                return core.viol('entry-points-disagree', 'PrettyPrinter(%r) constructed earlier, used under defaults %r gave\n%r\nreference\n%r' % (
+                    explicit, model, got[:500], ref[:500]))
+            if changed:
+                nontrivial = True
+        elif op[0] == 'get':
+            got = dict(pp.get_default_config())
+            if got != model:
+                return core.viol('get_default_config', 'reports %r, model %r' % (got, model))
+        else:
+            _, entry, vi, explicit, end = op
+            value = values.build(VALUES[vi])
+            if entry == 'pretty_repr':
+                value = CfgBox(value)
+                explicit = {}
+            if entry == 'pretty_repr_sub':
+                value = _setup['sub'](value)
+                explicit = {}
+            byname_first = None
+            if entry in ('pretty_repr_byname', 'pretty_repr_byname_sub'):
+                # a fresh class whose printer is registered by name only; repr() is its very first use
+                value = _fresh_byname_box(value, subclass=entry.endswith('_sub'))
+                explicit = {}
                 try:
-                    ret = pp.set_default_config(**op[1])
+                    byname_first = repr(value)
                 except Exception as e:
-                    return core.viol('set_default_config-raised', repr(e))
-                model.update(op[1])
-                if model != before:
-                    changed = True
-                if dict(ret) != model:
-                    return core.viol('set_default_config-return', 'returned %r, model %r' % (dict(ret), model))
-                if dict(pp.get_default_config()) != model:
-                    return core.viol('defaults-differ', 'after %r: %r, model %r' % (op, dict(pp.get_default_config()), model))
-            elif op[0] == 'mkpp':
-                # a printer object constructed now and used later: its explicit settings stick, everything else
-                # follows the defaults in force when it is USED
-                stored_pp = (pp.PrettyPrinter(**op[1]), dict(op[1]))
-            elif op[0] == 'usepp':
-                if stored_pp is None:
-                    continue
-                obj, explicit = stored_pp
-                value = values.build(VALUES[op[1]])
-                effective = dict(model)
-                effective.update(explicit)
-                try:
-                    ref = pp.pformat(value, **effective)
-                    got = obj.pformat(value)
-                except Exception as e:
-                    return core.viol('entry-point-raised', 'stored PrettyPrinter(%r) raised %r' % (explicit, e))
-                labels.add('stored-PrettyPrinter')
-                if got != ref:
-                    return core.viol('entry-points-disagree', 'PrettyPrinter(%r) constructed earlier, used under defaults %r gave\n%r\nreference\n%r' % (
-                        explicit, model, got[:500], ref[:500]))
-                if changed:
-                    nontrivial = True
-            elif op[0] == 'get':
-                got = dict(pp.get_default_config())
-                if got != model:
-                    return core.viol('get_default_config', 'reports %r, model %r' % (got, model))
-            else:
-                _, entry, vi, explicit, end = op
-                value = values.build(VALUES[vi])
-                if entry == 'pretty_repr':
-                    value = CfgBox(value)
-                    explicit = {}
-                byname_first = None
-                if entry == 'pretty_repr_byname':
-                    # a fresh class whose printer is registered by name only; repr() is its very first use
-                    value = _fresh_byname_box(value)
-                    explicit = {}
-                    try:
-                        byname_first = repr(value)
-                    except Exception as e:
-                        return core.viol('entry-point-raised', 'pretty_repr (by-name registered type, first use) raised %r' % (e,))
-                effective = dict(model)
-                effective.update(explicit)
-                try:
-                    ref = pp.pformat(value, **effective)
-                except Exception as e:
-                    return core.viol('reference-print-raised', '%r with %r' % (e, effective))
-                try:
-                    if entry == 'pretty_repr_byname':
-                        got = byname_first
-                        ref_cmp = ref
-                    elif entry == 'pretty_repr':
+                    return core.viol('entry-point-raised', 'pretty_repr (by-name registered type, first use) raised %r' % (e,))
+            effective = dict(model)
+            effective.update(explicit)
+            try:
+                ref = pp.pformat(value, **effective)
+            except Exception as e:
+                return core.viol('reference-print-raised', '%r with %r' % (e, effective))
+            try:
+                if entry in ('pretty_repr_byname', 'pretty_repr_byname_sub'):
+                    got = byname_first
+                    ref_cmp = ref
+                elif entry in ('pretty_repr', 'pretty_repr_sub'):
+                    import warnings as _w
+                    with _w.catch_warnings(record=True) as _ws:
+                        _w.simplefilter('always')
                         got = repr(value)
-                        ref_cmp = ref
-                    else:
-                        got = run_entry(entry, value, explicit, end)
-                        ref_cmp = ref + end
-                except Exception as e:
-                    return core.viol('entry-point-raised', '%s(%r) raised %r' % (entry, explicit, e))
-                labels.add(entry)
-                if got != ref_cmp:
-                    return core.viol('entry-points-disagree', '%s with explicit %r under defaults %r gave\n%r\nreference\n%r' % (
-                        entry, explicit, model, got[:500], ref_cmp[:500]))
-                if changed and (entry in ('pretty_repr', 'pretty_repr_byname') or (explicit and len(explicit) < len(DOMAIN))):
-                    eff_stock = dict(stock)
-                    eff_stock.update(explicit)
-                    if pp.pformat(value, **eff_stock) != ref:
-                        nontrivial = True
+                    if any('no pretty printer is registered' in str(x.message) for x in _ws):
+                        return core.viol('pretty-repr-warned', 'repr() of an instance whose class has (inherits) a registered printer warned: %s' % str(_ws[0].message)[:200])
+                    ref_cmp = ref
+                else:
+                    got = run_entry(entry, value, explicit, end)
+                    ref_cmp = ref + end
+            except Exception as e:
+                return core.viol('entry-point-raised', '%s(%r) raised %r' % (entry, explicit, e))
+            labels.add(entry)
+            if got != ref_cmp:
+                return core.viol('entry-points-disagree', '%s with explicit %r under defaults %r gave\n%r\nreference\n%r' % (
+                    entry, explicit, model, got[:500], ref_cmp[:500]))
+            if changed and (entry.startswith('pretty_repr') or (explicit and len(explicit) < len(DOMAIN))):
+                eff_stock = dict(stock)
+                eff_stock.update(explicit)
+                if pp.pformat(value, **eff_stock) != ref:
+                    nontrivial = True
+        return None
+
+    def in_thread(fn):
+        # the same step in a helper thread that is started and joined at once (still one call after another)
+        import threading
+        box = {}
+
+        def run():
+            try:
+                box['r'] = fn()
+            except BaseException as e:      # re-raised in the calling thread
+                box['e'] = e
+        t = threading.Thread(target=run)
+        t.start()
+        t.join()
+        if 'e' in box:
+            raise box['e']
+        return box.get('r')
+    try:
+        for i, op in enumerate(case['ops']):
+            if i in (case.get('threaded') or ()):
+                labels.add('op-in-helper-thread')
+                res = in_thread(lambda: step(op))
+            else:
+                res = step(op)
+            if res is not None:
+                return res
     finally:
         pp.set_default_config(**{k: stock[k] for k in DEFAULTABLE})
     return core.ok(nontrivial, sorted(labels))
